@@ -63,13 +63,29 @@ pub struct LookupCase {
     /// any other: it must be asked, and is a result only if it answered)
     #[serde(default)]
     pub target_known: bool,
+    /// when the first requests of the first lookup are out, the application removes a known peer that
+    /// has not been contacted yet from the routing table (Discv5::remove_node); it stays a candidate of
+    /// the running lookup
+    #[serde(default)]
+    pub remove_during: Option<u16>,
+    /// dual-stack service, all records advertise an IPv4 and an IPv6 socket
+    #[serde(default)]
+    pub dual: bool,
 }
 
 const LPOOL: u32 = 240;
 const LBASE: u32 = 1000;
 const PARALLELISM: usize = 3;
 
+thread_local! {
+    static LOOKUP_DUAL: std::cell::Cell<bool> = const { std::cell::Cell::new(false) };
+}
+
 fn lrec(i: u32) -> discv5::Enr {
+    if LOOKUP_DUAL.with(|d| d.get()) {
+        // dual-stack records (an IPv4 and an IPv6 socket)
+        return shaped_record(LBASE + i % LPOOL, 1, Shape::Both);
+    }
     keys::padded_record(LBASE + i % LPOOL, 1, 100)
 }
 
@@ -121,6 +137,8 @@ async fn drive(
     let mut idle = 0;
     let mut closer_learnt_later = false;
     let mut held_here = false;
+    let mut rounds_with_requests = 0usize;
+    let mut removed_candidate = false;
     let mut rounds = 0;
     while idle < 6 && rounds < 400 {
         rounds += 1;
@@ -144,6 +162,17 @@ async fn drive(
             continue;
         }
         idle = 0;
+        if let (Some(sel), true, true) = (c.remove_during, rounds_with_requests == 0, which == "first") {
+            let asked_now: HashSet<ids::Id> = reqs.iter().map(|(c, _, _)| c.node_id().raw()).collect();
+            let mut waiting: Vec<ids::Id> = learned.keys().filter(|l| !contacted.contains(*l) && !asked_now.contains(*l)).copied().collect();
+            waiting.sort();
+            if !waiting.is_empty() {
+                let victim = waiting[(sel as usize * waiting.len()) >> 16];
+                q.d.remove_node(&ids::node_id(&victim));
+                removed_candidate = true;
+            }
+        }
+        rounds_with_requests += 1;
         in_flight += reqs.len();
         // while iterating a lookup keeps `parallelism` requests in flight, once stalled up to k
         let bound = PARALLELISM.max(k);
@@ -284,13 +313,18 @@ async fn drive(
             }
         }
     }
+    let _ = removed_candidate;
     Ok(Driven { finished: true, results: ids_out.len(), closer_learnt_later, held_any: held_here })
 }
 
 async fn run_lookup(c: &LookupCase, rep: &mut CaseReport) -> Option<(String, String)> {
     reset_globals();
     let mnr = [None, Some(4usize), Some(8), Some(24), Some(64)][c.max_nodes as usize % 5];
-    let mut q = Svc::new(SvcConfig { key_idx: 0, max_nodes_response: mnr, ..Default::default() }).await;
+    LOOKUP_DUAL.with(|d| d.set(c.dual));
+    let mut q = Svc::new(SvcConfig { key_idx: 0, max_nodes_response: mnr, mode: if c.dual { Mode::Dual } else { Mode::Ip4 }, ..Default::default() }).await;
+    if c.dual {
+        rep.class("lookup/dual-stack-service-and-records");
+    }
     if let Some(m) = mnr {
         rep.class(format!("lookup/service-configured-with-max_nodes_response-{m}"));
     }
@@ -366,8 +400,10 @@ fn lookup_strategy() -> BoxedStrategy<LookupCase> {
         proptest::option::weighted(0.5, any::<u16>()),
         prop_oneof![3 => Just(0u8), 2 => Just(1u8), 1 => Just(2u8), 1 => Just(3u8), 1 => Just(4u8)],
         prop_oneof![3 => Just(false), 1 => Just(true)],
+        proptest::option::weighted(0.25, any::<u16>()),
+        prop_oneof![3 => Just(false), 1 => Just(true)],
     )
-        .prop_map(|(target, known, script, predicate, num, second, max_nodes, target_known)| LookupCase { target, known, script, predicate, num, second, max_nodes, target_known })
+        .prop_map(|(target, known, script, predicate, num, second, max_nodes, target_known, remove_during, dual)| LookupCase { target, known, script, predicate, num, second, max_nodes, target_known, remove_during, dual })
         .boxed()
 }
 
@@ -414,7 +450,7 @@ impl Property for C10 {
         rep
     }
     fn rule() -> String {
-        "the C09 machine histories (real FindNodeQuery / PredicateQuery, explicit clock, drain at the end); at the end into_result() is checked: R1 <= num_results ids, pairwise distinct, strictly increasing XOR distance (harness arithmetic); R2 every id was handed out by next() and a success was delivered for it while it was outstanding and before the finish; R3 (predicate variant) every id was reported (initial list or accepted success) with a value satisfying the predicate; R4 if fewer than num_results ids are returned every candidate (first num_results initial ids + ids inside accepted successes) was contacted. One case in 14 is a whole lookup through the public API (Discv5::find_node / find_node_predicate on a real service behind a scripted handler): 1..10 known peers (in a quarter of the cases the node whose id is the target is one of them), a pool of 240 signed records, every FINDNODE the lookup emits is answered per script with 0..4 records at the requested distances (sorted towards the target, farthest first, split over two packets, empty) or failed; requests may also be left without an outcome for the time being; the Vec<Enr> the caller gets back is checked for <= k distinct nodes in strictly increasing distance, every node having answered, predicate satisfied, and completeness when short (predicate lookups ask for 1..4 or 16 results, so the table may hold more entries than the lookup starts from); at no time more than max(parallelism = 3, k) FINDNODEs of a lookup are in flight; the service's max_nodes_response is the default or 4 / 8 / 24 / 64 (no answer is truncated by it; k stays 16); in half of the cases a second lookup runs on the same service afterwards, and the requests of the first lookup that were left open are answered while the second one is waiting. Non-trivial = result shorter than num_results with >=1 failure and >=1 result, or exactly num_results results out of more successes; (lookup) >= 2 results and a node closer to the target was learnt after a farther one.".into()
+        "the C09 machine histories (real FindNodeQuery / PredicateQuery, explicit clock, drain at the end); at the end into_result() is checked: R1 <= num_results ids, pairwise distinct, strictly increasing XOR distance (harness arithmetic); R2 every id was handed out by next() and a success was delivered for it while it was outstanding and before the finish; R3 (predicate variant) every id was reported (initial list or accepted success) with a value satisfying the predicate; R4 if fewer than num_results ids are returned every candidate (first num_results initial ids + ids inside accepted successes) was contacted. One case in 14 is a whole lookup through the public API (Discv5::find_node / find_node_predicate on a real service behind a scripted handler): 1..10 known peers (in a quarter of the cases the node whose id is the target is one of them), a pool of 240 signed records, every FINDNODE the lookup emits is answered per script with 0..4 records at the requested distances (sorted towards the target, farthest first, split over two packets, empty) or failed; requests may also be left without an outcome for the time being; the Vec<Enr> the caller gets back is checked for <= k distinct nodes in strictly increasing distance, every node having answered, predicate satisfied, and completeness when short (predicate lookups ask for 1..4 or 16 results, so the table may hold more entries than the lookup starts from); at no time more than max(parallelism = 3, k) FINDNODEs of a lookup are in flight; the service is IPv4-only or (a quarter of the cases) dual-stack with records advertising both families; its max_nodes_response is the default or 4 / 8 / 24 / 64 (no answer is truncated by it; k stays 16); in a quarter of the cases the application removes a not yet contacted known peer from the routing table while the first requests are out (it remains a candidate); in half of the cases a second lookup runs on the same service afterwards, and the requests of the first lookup that were left open are answered while the second one is waiting. Non-trivial = result shorter than num_results with >=1 failure and >=1 result, or exactly num_results results out of more successes; (lookup) >= 2 results and a node closer to the target was learnt after a farther one.".into()
     }
     fn assumptions() -> Vec<String> {
         vec![
